@@ -1568,7 +1568,23 @@ class Mailbox:
         #     during any asyncio process where we want to guarantee writership.
         #
         assert self.mh_sequences_lock.locked()
-        self.mailbox.set_sequences({k: list(v) for k, v in seqs.items()})
+        new_seqs = {k: list(v) for k, v in seqs.items()}
+
+        # Messages that something else added to the folder since we last
+        # looked at it (mail being delivered) are not in our in-memory copy
+        # yet. What the folder's .mh_sequences says about them (eg: that they
+        # are `unseen`) must survive our rewrite.
+        #
+        known = set(self.msg_keys)
+        try:
+            on_disk = self.mailbox.get_sequences()
+        except FormatError:
+            on_disk = {}
+        for name, keys in on_disk.items():
+            not_ours = [k for k in keys if k not in known]
+            if not_ours:
+                new_seqs[name] = sorted(set(new_seqs.get(name, [])) | set(not_ours))
+        self.mailbox.set_sequences(new_seqs)
 
     ##################################################################
     #
